@@ -69,6 +69,12 @@ def classify_location(loc: str):
     return "other"
 
 
+def _stub_applied(name: str, text: str) -> bool:
+    """Kani prints `- Stub: a :: b :: c -> stub` / `- Verified stub: a::b`."""
+    want = name.replace(" ", "")
+    return any(want in l.replace(" ", "") for l in text.splitlines() if re.search(r"- (Verified stub|Stub):", l))
+
+
 def parse_result(text: str, ob: dict):
     """Classify one harness result file."""
     res = {"status": None, "checks": 0, "failed": [], "ignored_nan_checks": 0, "covers": [0, 0],
@@ -141,7 +147,7 @@ def parse_result(text: str, ob: dict):
     elif ob.get("min_covers", 0) > res["covers"][1]:
         res.update(status="undecided", reason="vacuity guard: fewer cover properties than declared")
     else:
-        missing = [s for s in ob.get("stubs", []) if not re.search(r"(Verified stub|Stub): .*" + re.escape(s), text)]
+        missing = [s for s in ob.get("stubs", []) if not _stub_applied(s, text)]
         if missing and not ob.get("_stubs_in_stdout"):
             res.update(status="undecided", reason="expected stub(s) not applied: " + ", ".join(missing))
         else:
@@ -166,6 +172,16 @@ def run_crate(scratch: Path, crate: str, obligations: list, timeout_s: int, jobs
     rounds = -(-len(obligations) // max(1, jobs))
     rc, out, timed_out, wall = _run(cmd, scratch, 420 + rounds * (timeout_s + 30), logdir / f"kani-{crate}.log")
     results = {}
+    # attribute the driver's "- Stub:" lines to harnesses (per thread under -j)
+    stub_lines, cur = {}, {}
+    for line in out.splitlines():
+        m = re.match(r"^(?:Thread (\d+): )?Checking harness (\S+?)\.\.\.", line)
+        if m:
+            cur[m.group(1)] = m.group(2)
+            continue
+        m = re.match(r"^(?:Thread (\d+): )?\s+- (Verified stub|Stub): ", line)
+        if m and m.group(1) in cur:
+            stub_lines[cur[m.group(1)]] = stub_lines.get(cur[m.group(1)], "") + line + "\n"
     compile_error = bool(re.search(r"^error(\[E\d+\])?:", out, re.M)) and "Checking harness" not in out
     for ob in obligations:
         f = outdir / ob["harness"]
@@ -180,7 +196,8 @@ def run_crate(scratch: Path, crate: str, obligations: list, timeout_s: int, jobs
             # stub lines are printed by the driver thread; they are part of the per-harness file
             # in this Kani version, but fall back to the global log
             ob2 = dict(ob)
-            if all(re.search(r"(Verified stub|Stub): .*" + re.escape(s), out) for s in ob.get("stubs", [])):
+            mine = stub_lines.get(ob["harness"], "")
+            if all(_stub_applied(s, mine) for s in ob.get("stubs", [])):
                 ob2["_stubs_in_stdout"] = True
             r = parse_result(text, ob2)
             (logdir / f"{ob['id']}.kani.txt").write_text(_excerpt(text))
